@@ -165,3 +165,83 @@ def rule_check_then_wait(chk, r, only_fields=None, raced_table=None):
             else:
                 r.bad(cfg, key, where(body, n.blk),
                       "check-then-wait: the condition is evaluated (bb%s), then `notified()` is created and awaited as the only wake source, but the waker uses notify_waiters() (%s) which stores no permit: a notification between the check and the await is lost and the task sleeps although the condition holds" % (info, wk))
+
+
+# ---------------------------------------------------------------------------
+# re-entry gates of the byte-driven handlers (used by C04 R2 and C05 R5)
+# ---------------------------------------------------------------------------
+def _bare_return(body, b, limit=12):
+    """does block b lead to the function's return through gotos/drops only (an early `return;`)?"""
+    for _ in range(limit):
+        t = body.term(b)
+        if t["k"] == "return":
+            return True
+        if t["k"] in ("goto", "drop") and not body.blocks[b]["cleanup"]:
+            b = t["t"]
+            continue
+        return False
+    return False
+
+
+def _gate_field(body, s):
+    """`self.<field>` tested by switch s (bool flag, Option::is_none/is_some, or enum discriminant), else None"""
+    a, _ = body.switch_atom(s)
+    path = None
+    if a[0] == "place":
+        path = a[1]
+    elif a[0] == "discr":
+        path = a[1]
+    elif a[0] == "call" and a[1].name in ("is_none", "is_some") and a[1].args:
+        path = body.provenance(a[1].args[0])
+    if path and re.match(r"^self\.\w+$", path):
+        return path
+    return None
+
+
+def rule_gate_closes_after_stage(chk, r, body_rx, acc_rx, floor):
+    """In a handler that is re-entered as more bytes arrive, a stage guarded by a gate on self.<F> must not close the gate
+    (assign self.<F>) and afterwards, still inside the stage, return early for lack of bytes: on re-entry the gate is
+    closed, the rest of the stage is skipped and the handler waits for ever (or takes the wrong branch)."""
+    for cfg, prog in chk.configs():
+        n = 0
+        for body in prog.find_bodies(body_rx):
+            if body.kind not in ("fn", "assoc_fn"):
+                continue
+            for s in range(body.n):
+                if body.term(s)["k"] != "switch" or body.blocks[s]["cleanup"]:
+                    continue
+                f = _gate_field(body, s)
+                if not f:
+                    continue
+                t = body.term(s)
+                for lab, tgt in [(v, x) for v, x in t["targets"]] + [("otherwise", t["otherwise"])]:
+                    region = set(b for b in body.reachable([tgt]) if body.edge_dominates(s, lab, b))
+                    if not region:
+                        continue
+                    writes = [b for b, i, st in body.statements() if b in region and st["k"] == "assign" and body.place_path(st["p"]) == f]
+                    if not writes:
+                        continue
+                    n += 1
+                    key = "%s|gate %s closes only when its stage is done" % (short(body.path), f)
+                    bad = None
+                    for w in writes:
+                        after = body.reachable([w]) & region
+                        for s2 in sorted(after):
+                            t2 = body.term(s2)
+                            if t2["k"] != "switch" or s2 == s:
+                                continue
+                            a2, _ = body.switch_atom(s2)
+                            if a2[0] != "cmp" or a2[1] not in ("Lt", "Le", "Gt", "Ge"):
+                                continue
+                            sides = body.provenance(a2[2]) + " " + body.provenance(a2[3])
+                            if "len(" not in sides or not re.search(acc_rx, sides):
+                                continue
+                            for lab2, tgt2 in [(v, x) for v, x in t2["targets"]] + [("otherwise", t2["otherwise"])]:
+                                if _bare_return(body, tgt2):
+                                    bad = (w, s2)
+                    if bad:
+                        r.bad(cfg, key, where(body, bad[0]), "%s is assigned at %s and the stage then returns early at %s when too few bytes have arrived: the next read re-enters with the gate already closed, skips the rest of the stage, and the handshake depends on where the transport cut the stream" % (
+                            f, next((st.get("sp", "?").split("/")[-1] for st in body.blocks[bad[0]]["st"] if st["k"] == "assign" and body.place_path(st["p"]) == f), "?"), body.term(bad[1])["sp"].split("/")[-1]))
+                    else:
+                        r.ok(cfg, key, where(body, writes[0]), "no need-more-bytes return follows the gate's assignment inside the gated stage")
+        r.require(cfg, floor, "gated stages in byte-driven handlers")
